@@ -80,7 +80,7 @@ type Engine struct {
 
 	// stats
 	paths, instrs, forks, merges, proved, unsupported, bigAlloc, approxEq, deadlocks int
-	obligations, unknowns, unwindHits, assumeCut                                     int
+	obligations, unknowns, unwindHits, assumeCut, modelHits                          int
 	asserted   map[string]int
 	aborts     map[string]int
 	viol       map[string]*Violation // new violations by kind|label
@@ -187,8 +187,26 @@ func (e *Engine) feasible(st *State, c *Term) bool {
 	if c.False() {
 		return false
 	}
-	r, _ := e.check(st, c, false)
+	if st.model != nil && evalTerm(c, st.model) != 0 {
+		e.modelHits++
+		return true
+	}
+	r, m := e.check(st, c, true)
+	if r == "sat" && m != nil {
+		st.model = m
+	}
 	return r != "unsat"
+}
+
+// assume appends c to the path condition, keeping the cached model only if it still satisfies the path.
+func (st *State) assume(c *Term) {
+	if c.True() {
+		return
+	}
+	st.pc = append(st.pc, c)
+	if st.model != nil && evalTerm(c, st.model) == 0 {
+		st.model = nil
+	}
 }
 
 func ndVector(st *State, m map[string]uint64) ([]uint64, []int) {
@@ -321,7 +339,7 @@ func (e *Engine) vc(st *State, kind, label string, bad *Term) bool {
 	if !e.feasible(st, nb) {
 		return false
 	}
-	st.pc = append(st.pc, nb)
+	st.assume(nb)
 	return true
 }
 
@@ -374,7 +392,7 @@ func (e *Engine) concretize(st *State, v ssa.Value, t *Term, limit int, what str
 			s2 = st.clone()
 		}
 		c := C(val, t.W)
-		s2.pc = append(s2.pc, Cmp("=", t, c))
+		s2.assume(Cmp("=", t, c))
 		s2.g().top().locals[v] = c
 		out = append(out, s2)
 	}
@@ -385,12 +403,48 @@ func (e *Engine) concretize(st *State, v ssa.Value, t *Term, limit int, what str
 }
 
 // fork on a symbolic boolean; returns states for true and false side (nil if infeasible).
+// The side taken by the state's cached model is feasible without a query (model reuse).
 func (e *Engine) forkOn(st *State, c *Term) (t, f *State) {
 	if c.True() {
 		return st, nil
 	}
 	if c.False() {
 		return nil, st
+	}
+	if st.model == nil {
+		// acquire a model of the path condition
+		r, m := e.check(st, B(true), true)
+		if r == "sat" {
+			st.model = m
+		}
+	}
+	if st.model != nil {
+		tv := evalTerm(c, st.model) != 0
+		e.modelHits++
+		other := c
+		if tv {
+			other = Not(c)
+		}
+		r, m := e.check(st, other, true)
+		if r == "unsat" {
+			if tv {
+				st.assume(c)
+				return st, nil
+			}
+			st.assume(Not(c))
+			return nil, st
+		}
+		e.forks++
+		s2 := st.clone()
+		s2.model = m // nil when the solver answered unknown
+		if tv {
+			st.pc = append(st.pc, c)
+			s2.pc = append(s2.pc, Not(c))
+			return st, s2
+		}
+		st.pc = append(st.pc, Not(c))
+		s2.pc = append(s2.pc, c)
+		return s2, st
 	}
 	ft := e.feasible(st, c)
 	ff := true
@@ -401,14 +455,16 @@ func (e *Engine) forkOn(st *State, c *Term) (t, f *State) {
 	case ft && ff:
 		e.forks++
 		s2 := st.clone()
+		s2.model = nil
+		st.model = nil
 		st.pc = append(st.pc, c)
 		s2.pc = append(s2.pc, Not(c))
 		return st, s2
 	case ft:
-		st.pc = append(st.pc, c)
+		st.assume(c)
 		return st, nil
 	default:
-		st.pc = append(st.pc, Not(c))
+		st.assume(Not(c))
 		return nil, st
 	}
 }
@@ -699,7 +755,7 @@ func (e *Engine) step(st *State, barrierOut *[]*State) []*State {
 					if !e.feasible(st, small) {
 						return e.abort(st, "make length always above alloc_max in "+fr.fn.String())
 					}
-					st.pc = append(st.pc, small)
+					st.assume(small)
 				}
 				return e.concretize(st, x.Len, n, e.allocMax+3, "make length in "+fr.fn.String())
 			}
